@@ -250,5 +250,14 @@ func genE2E(r *core.Rand) []string {
 		}
 	}
 	rh := clean(genHeader(r, genOpts{name: e.name, boundary: e.boundary}))
-	return []string{fmt.Sprintf("e2e %s %s %s %d %s", hx(e.name), hx(e.boundary), hx(b.String()), r.Pick2(200, 404), encHeader(rh))}
+	return []string{fmt.Sprintf("e2e %s %s %s %d %s", hx(e.name), hx(e.boundary), hx(b.String()), e2eStatus(r), encHeader(rh))}
+}
+
+// e2eStatus: final status codes the scripted origin answers with (1xx interim responses are not
+// final responses on the wire; 101 is: it ends the HTTP exchange).
+func e2eStatus(r *core.Rand) int {
+	if r.Bool() {
+		return r.Pick2(200, 404)
+	}
+	return []int{101, 201, 204, 205, 206, 299, 301, 304, 307, 400, 407, 426, 500, 502, 503, 599}[r.Intn(16)]
 }
